@@ -43,6 +43,24 @@ def run(ctx, R, tier):
             '; '.join(problems) or 'no PlaybackStateManager constructor call found in the track code',
             detail={'flags': flag_names, 'track': bindings.get('track')})
     tflags = bindings.get('track', {})
+    # the documented life cycle, as it applies to a track (no stopped state: an unreachable resume falls back to Paused)
+    expect = {k: {s0: set(v) for s0, v in d.items()} for k, d in c03.EXPECT.items()}
+    expect['update']['WaitingToResume'] = {'WaitingToResume', 'Resuming', 'Paused'}
+    for label, m, binding in (('pause', 'pause', None), ('resume[Immediate]', 'resume', {'start_time': frozenset(['Immediate'])}),
+                              ('resume[other]', 'resume', {'start_time': frozenset(v for v in stvars if v != 'Immediate')}),
+                              ('update', 'update', None)):
+        r0 = c03.extract(F, m, names, binding, flags=tflags)
+        if r0 is None:
+            continue
+        for s0 in names:
+            if s0 in ('Stopping', 'Stopped'):
+                continue  # not reachable for a track (checked below)
+            got = set()
+            for to, ret, dec, calls in r0[s0]:
+                got |= set(to)
+            R.check(got == expect[label][s0], 'B.SM.track', '%s:%s' % (label, s0),
+                    'for a track, %s from %s leads to %s; the documented life cycle says %s' % (label, s0, sorted(got), sorted(expect[label][s0])),
+                    detail={'method': label, 'from': s0, 'to': sorted(got)})
     rel = {}
     for m in sorted(used):
         if m in ('playback_state', 'interpolated_fade_volume', 'new'):
